@@ -210,8 +210,96 @@ theorem storeStage_rcn (hB : D + W.length + 2 < 2 ^ 31) (s : Sock) (seg : Segmen
   have hres' : res = seg.len.toNat := by rw [hres]; omega
   subst hres'
   simp only [bne_self_eq_false, Bool.false_eq_true, if_false] at h
-  trace_state
-  sorry
+  have hby1 : ∀ i, i < s.rbuf.buf.size → byteAt rb1 i =
+      if s.rbuf.data + (seg.seq.toNat - s.rcv_nxt.toNat) ≤ i ∧
+          i < s.rbuf.data + (seg.seq.toNat - s.rcv_nxt.toNat) + seg.len.toNat
+        then p.getD (seg.dataOff + (i - (s.rbuf.data + (seg.seq.toNat - s.rcv_nxt.toNat)))) 0
+        else byteAt s.rbuf i := hbytes
+  clear hbytes
+  by_cases heq : seg.seq = s.rcv_nxt
+  · -- in order
+    simp only [heq, beq_self_eq_true, if_true] at h
+    obtain ⟨rb2, hcw, h⟩ := bind_ok h
+    obtain ⟨⟨rl, rb3, nxt3, wnd3, sf3⟩, hrr, h⟩ := bind_ok h
+    simp only [pure, Except.pure] at h
+    cases h
+    have hb2 := consumeWriteBuffer_eq hcw
+    have ⟨hf2, _, hd2⟩ := consumeWriteBuffer_ok hf1 (by rw [hsz1]; exact hc.fok.2) hcw
+    have hby2 : ∀ i, byteAt rb2 i = byteAt rb1 i := by intro i; rw [hb2]; rfl
+    have hsz2 : rb2.buf.size = s.rbuf.buf.size := by rw [hb2]; exact hsz1
+    have hseq : seg.seq.toNat = s.rcv_nxt.toNat := by rw [heq]
+    have hnx2 : (s.rcv_nxt + seg.len).toNat = s.rcv_nxt.toNat + seg.len.toNat := add_toNat_of_lt _ _ (by omega)
+    have hc2 : RCn W D n rb2 (s.rcv_nxt + seg.len) s.rlist := by
+      refine ⟨⟨hf2, by rw [hsz2]; exact hc.fok.2⟩, by omega, ?_, by omega, ?_⟩
+      · intro i hi
+        rw [hby2, hby1 i (by omega)]
+        by_cases hi0 : i < s.rbuf.data
+        · have : ¬ (s.rbuf.data + (seg.seq.toNat - s.rcv_nxt.toNat) ≤ i ∧
+              i < s.rbuf.data + (seg.seq.toNat - s.rcv_nxt.toNat) + seg.len.toNat) := by omega
+          simp only [this, if_false]
+          exact hc.com i hi0
+        · have : (s.rbuf.data + (seg.seq.toNat - s.rcv_nxt.toNat) ≤ i ∧
+              i < s.rbuf.data + (seg.seq.toNat - s.rcv_nxt.toNat) + seg.len.toNat) := by omega
+          simp only [this, and_self, if_true]
+          rw [hs.bytes _ (by omega)]
+          congr 1; omega
+      · intro r hr
+        have hr' := hc.ooo r hr
+        refine ⟨hr'.1, ?_⟩
+        intro q q1 q2 q3
+        have ⟨a1, a2⟩ := hr'.2 q q1 q2 (by omega)
+        rw [hsz2, hby2, hby1 _ a1]
+        have : ¬ (s.rbuf.data + (seg.seq.toNat - s.rcv_nxt.toNat) ≤ q - (D + n) ∧
+              q - (D + n) < s.rbuf.data + (seg.seq.toNat - s.rcv_nxt.toNat) + seg.len.toNat) := by omega
+        simp only [this, if_false]
+        exact ⟨a1, a2⟩
+    have ⟨hc3, hmono⟩ := rlistRecover_rcn hB _ _ _ _ _ _ hc2 hrr
+    refine ⟨rb3, nxt3, wnd3, rl, rfl, hc3, ?_⟩
+    intro _
+    simp only at hmono
+    omega
+  · -- out of order
+    have hne : (seg.seq == s.rcv_nxt) = false := by simpa using heq
+    simp only [hne, Bool.false_eq_true, if_false, pure, Except.pure] at h
+    cases h
+    have hgt : s.rcv_nxt.toNat < seg.seq.toNat := by
+      have : seg.seq.toNat ≠ s.rcv_nxt.toNat := fun e => heq (UInt32.toNat_inj.mp e)
+      omega
+    refine ⟨rb1, s.rcv_nxt, s.rcv_wnd, rlistInsert { seq := seg.seq, len := seg.len } s.rlist, rfl, ?_,
+      fun e => absurd e heq⟩
+    refine ⟨⟨hf1, by rw [hsz1]; exact hc.fok.2⟩, by omega, ?_, by omega, ?_⟩
+    · intro i hi
+      rw [hd1] at hi
+      rw [hby1 i (by omega)]
+      have : ¬ (s.rbuf.data + (seg.seq.toNat - s.rcv_nxt.toNat) ≤ i ∧
+            i < s.rbuf.data + (seg.seq.toNat - s.rcv_nxt.toNat) + seg.len.toNat) := by omega
+      simp only [this, if_false]
+      exact hc.com i hi
+    · intro r hr
+      rcases mem_rlistInsert _ _ _ hr with hr | hr
+      · subst hr
+        refine ⟨hhi, ?_⟩
+        intro q q1 q2 q3
+        simp only at q1 q2
+        have a1 : q - (D + n) < s.rbuf.buf.size := by omega
+        rw [hsz1, hby1 _ a1]
+        have : (s.rbuf.data + (seg.seq.toNat - s.rcv_nxt.toNat) ≤ q - (D + n) ∧
+              q - (D + n) < s.rbuf.data + (seg.seq.toNat - s.rcv_nxt.toNat) + seg.len.toNat) := by omega
+        simp only [this, and_self, if_true]
+        refine ⟨a1, ?_⟩
+        rw [hs.bytes _ (by omega)]
+        congr 1; omega
+      · have hr' := hc.ooo r hr
+        refine ⟨hr'.1, ?_⟩
+        intro q q1 q2 q3
+        have ⟨a1, a2⟩ := hr'.2 q q1 q2 q3
+        rw [hsz1, hby1 _ a1]
+        refine ⟨a1, ?_⟩
+        split
+        · rename_i hin
+          rw [hs.bytes _ (by omega)]
+          congr 1; omega
+        · exact a2
 
 end
 
